@@ -108,13 +108,16 @@ def show(v, depth=0):
         return f'<{type(v).__name__} (repr failed: {e})>'
 
 
-def replay(doc):
+def replay(doc, ghost_override=None):
     import speclib
     ghost_fn = make_ghost(doc.get('ghost'))
     speclib.GHOST.clear()
     for name in (doc.get('ghost') or {}):
         speclib.GHOST[name] = ghost_fn(name)
     speclib.GHOST.setdefault('draw', ghost_fn('draw'))
+    if ghost_override is not None:
+        speclib.GHOST['draw'] = ghost_override
+        ghost_fn = lambda name: ghost_override
     cmod = importlib.import_module(doc['contract_module'])
     C = getattr(cmod, doc['contract'])
     env = {}
